@@ -56,7 +56,8 @@ OBLIGATIONS = [
     small('monthly_bymonthday1_restart_c2_p2', 2, ['RESTART', 'NDOM=1', 'EXPECT_REFILLS'], npop=2, timeout=3400, tiers=T, mem_gb=24),
     small('monthly_shift3_restart_c2_p2', 2, ['RESTART', 'SHIFTD=3', 'EXPECT_REFILLS'], npop=2, timeout=3400, tiers=T, mem_gb=24),
     small('yearly_byhour2_shiftm5_c2_p3', 1, ['RESTART', 'NH=2', 'SHIFTD=-5', 'EXPECT_REFILLS'], npop=3, timeout=3400, tiers=T, mem_gb=30,
-          uw={'shift.*': 9, 'fill_yly_ymd.*': 4, 'fill_yly_ymd_all_d.*': 4, 'fill_yly_ymd_all_m.*': 14, 'fill_yly_md_all.*': 33, 'fill_yly_yd_all.*': 368, 'fill_yly_yd.*': 4, 'fill_yly_ywd.*': 4, 'fill_yly_ycw.*': 4, 'fill_yly_ymcw.*': 4, 'fill_yly_eastr.*': 2}),
+          uw={'rrul_fill_yly.0': 3, 'rrul_fill_yly.1': 3, 'rrul_fill_yly.2': 3, 'rrul_fill_yly.3': 3, 'rrul_fill_yly.4': 3, 'rrul_fill_yly.5': 3, 'rrul_fill_yly.6': 4, 'rrul_fill_yly.7': 3, 'rrul_fill_yly.8': 4, 'rrul_fill_yly.9': 7,
+              'shift.*': 9, 'fill_yly_ymd.*': 4, 'fill_yly_ymd_all_d.*': 4, 'fill_yly_ymd_all_m.*': 14, 'fill_yly_md_all.*': 33, 'fill_yly_yd_all.*': 368, 'fill_yly_yd.*': 4, 'fill_yly_ywd.*': 4, 'fill_yly_ycw.*': 4, 'fill_yly_ymcw.*': 4, 'fill_yly_eastr.*': 2}),
     small('daily_until_c2_p2', 4, ['WITH_UNTIL'], npop=2, timeout=3400, tiers=T),
     ob('hourly_restart', 5, ['RESTART', 'EXPECT_REFILLS'], npop=5, tiers=T, timeout=3400),
     ob('daily_restart', 4, ['RESTART', 'EXPECT_REFILLS'], npop=5, tiers=T, timeout=3400),
